@@ -498,7 +498,7 @@ func TestVerifC38Clean(t *testing.T) {
 	evs := []string{"A", "C", "M-2", "M-1", "M0", "M1", "M2", "E-2", "E-1", "E0", "E1", "E2", "R1", "R2"}
 	starts := c38wStarts()
 
-	depth0 := vlib.Pick(r, 5, 8) // from the empty pool
+	depth0 := vlib.Pick(r, 5, 7) // from the empty pool
 	depthw := vlib.Pick(r, 4, 6) // from a pre-populated window
 
 	_, replaying := r.Replaying()
